@@ -176,7 +176,11 @@ func (o *Array) BinaryOp(op token.Token, rhs Object) (Object, error) {
 			if len(rhs.Value) == 0 {
 				return o, nil
 			}
-			return &Array{Value: append(o.Value, rhs.Value...)}, nil
+			// always allocate: appending in place would write into spare
+			// capacity that other arrays sliced from o still share
+			v := make([]Object, 0, len(o.Value)+len(rhs.Value))
+			v = append(v, o.Value...)
+			return &Array{Value: append(v, rhs.Value...)}, nil
 		}
 	}
 	return nil, ErrInvalidOperator
